@@ -86,6 +86,10 @@ TABLE = {
             'For every truncation length 0..len-1 of the truncated file (covered by the path partition, 3000+ classes) the reader either raises or returns exactly the observables of all complete records preceding the cut; '
             'the partial-read abstraction is justified by an AST scan of the current source on every run.',
             'openQCD binary formats only; truncated json.gz / xml.gz / csv.gz archives and sfcf text files are not applicable (gzip / rapidjson / lxml / pandas decide).'),
+    'C04': (True, 'symbolic execution of Obs.__init__ with z3-integer configuration numbers (SMT: rejected iff not strictly increasing, range iff equally spaced) + structural invariant and type-closure assertion on every result of one step of every operator / producer',
+            'Constructor: for all configuration numbers in the box the accept / reject decision, the stored list and the range-vs-list form are decided by the solver on every path; all listed malformed requests are rejected; '
+            'closure: every operator between Obs / CObs / int / float / complex in both orders and the other producers yield well-formed real or complex observables (the same invariant is asserted on every result in C01, C05, C07-C09, C11, C13, C17).',
+            'Structure is enumerated (the solver decides values only in the constructor part); pickle outside; known finding: Obs ** complex returns a complex-valued Obs.'),
 }
 
 NOT_YET = 'check not built yet in this session (work in progress; see DESIGN.md section 4 for the plan)'
